@@ -170,6 +170,17 @@ CHECKS['C14'] = (
     'documents over 500 characters are skipped for cost (counted); item renames and out-of-shape argument orders are judged on text and search only',
     '3/C14')
 
+CHECKS['C15'] = (
+    'model-based testing of edit histories: Hypothesis-generated (document, operation list) pairs + exhaustive depth-2/3 histories on tiny documents, nested-list reference model',
+    'a reference document (nested Python lists with a render()) is built from the generating syntax tree and subjected to '
+    'the same history of 13 kinds of edit as the TexSoup tree (targets by path, re-fetched each step; strings and freshly '
+    'parsed fragment copies as material; edits inside and next to inserted material and on twins). After every step: '
+    'text == model text; find_all for every model name == model occurrences; descendants == closure; parent chains end at '
+    'the root; text view == model text leaves. ~18k random histories up to 14 steps + all depth-2 histories over 78 '
+    'operation codes on 6 tiny documents (quick); 40 steps / depth 3 thorough. Exploration.',
+    'the model is 150 lines of list manipulation; argument-list removal follows Python list semantics (first textually equal group)',
+    '3/C15')
+
 PENDING = {}
 
 
